@@ -330,15 +330,18 @@ def c03_monitor(ctx, tr, ix):
                     delist_today = t == "STOCK" and any(s["delisted"] is not None and nxt8 >= B.d8(s["delisted"]) and
                                                         (B.d8(s["delisted"]) > today8 or any(h["id"] == s["id"] and h["long"]["qty"] == 0 for h in a["holdings"])) for s in S["stocks"])
                     liquidated = (not a["holdings"]) and a["total_cash"] == 0
-                    # NOT JUDGED (unresolved observation U1, DESIGN.md I.7): a share conversion whose predecessor still has a dividend payable on or after its last trading day. With
+                    # finding F46 (DESIGN.md I.5/I.7): a share conversion whose predecessor still has a dividend payable on or after its last trading day. With
                     # reinvestment on, the code buys shares of the already delisted predecessor on the payable morning, converts them a day late and re-marks the successor's whole
-                    # holding at the predecessor's stale last price; the identity fails around those days. Whether that is a defect of the code or of the generated data is not settled.
+                    # holding at the predecessor's stale last price; the identity fails around those days.
                     conv_pending_div = t == "STOCK" and any(
                         ix.stock.get(p_) is not None and ix.stock[p_]["delisted"] is not None and
                         any(r_[3] >= max([b_[0] // 1000000 for b_ in ix.stock[p_]["bars"].values()] or [0]) for r_ in S["div"].get(p_, []))
                         for p_ in S["trf"])
                     if conv_pending_div and not near(dp, want, 1e-6) and abs(dp - want) > 1e-4:
-                        ctx.stats["c03_daily_pnl_not_judged:conversion_with_pending_dividend(U1)"] += 1
+                        ctx.stats["c03_daily_pnl:conversion_with_pending_dividend(F46)"] += 1
+                        ctx.witness("C03.5", {"kind": "daily_pnl_identity", "conversion_with_pending_dividend": True},
+                                    "%s %s: reported daily P&L %r, change in total value net of flows %r — in a run where a converted (delisted) stock still had a dividend payable on or after its last trading day"
+                                    % (when.date(), t, dp, want), rp)
                         liquidated = True
                     if not near(dp, want, 1e-6) and abs(dp - want) > 1e-4 and not liquidated:
                         # shares reinvested and split the same morning: the half share lost or won by rounding the split is booked as trading P&L of
